@@ -16,7 +16,7 @@ EXTENDS Integers, FiniteSets, Sequences, TLC
 (*********** option lattice and wrapper stacks ***********)
 Options == [enc : BOOLEAN, comp : BOOLEAN, limit : {"none", "client", "server"}, mux : BOOLEAN,
             transport : {"tcp", "kcp", "quic", "websocket"}, tls : BOOLEAN, pool : {0, 2},
-            pp : {"", "v1", "v2"}, kind : {"tcp", "stcp", "https", "tcpmux"}]
+            pp : {"", "v1", "v2"}, kind : {"tcp", "stcp", "https", "tcpmux", "xtcp"}]     \* xtcp: no hole can be punched here, the visitor falls back to stcp
 \* the transforming layers each side wraps around the work connection, from the wire outward
 SrvStack(o) == (IF o.enc THEN <<"enc">> ELSE <<>>) \o (IF o.comp THEN <<"comp">> ELSE <<>>)
 CliStack(o) == (IF o.enc THEN <<"enc">> ELSE <<>>) \o (IF o.comp THEN <<"comp">> ELSE <<>>)
